@@ -476,6 +476,27 @@ def search(ctx):
         except Exception as ex:
             import traceback
             ctx.violation("C15:raises:%s" % type(ex).__name__, "save/load raised %r" % (ex,), dict(kind="raises", tb=traceback.format_exc()[-800:]))
+    # numeric payloads at full precision and extreme magnitudes, in every numeric type the representers handle
+    for i in range(ctx.n(30, 300)):
+        try:
+            mag = float(10.0 ** rng.uniform(-300, 300)) if i % 4 == 0 else float(10.0 ** rng.uniform(-3, 3))
+            re_, im_ = float(rng.uniform(1, 2)) * mag, float(rng.uniform(0, 1)) * (mag if i % 3 else 1e-3)
+            kind = i % 6
+            nval = [complex(re_, im_), np.complex128(complex(re_, im_)), re_, np.float64(re_), [complex(re_, im_), np.complex128(complex(re_ * 1.1, im_))],
+                    np.array([complex(re_, im_), complex(re_ * 1.1, im_ * 0.7)])][kind]
+            rval = float(rng.uniform(0.1, 1)) * mag if kind < 4 else [float(rng.uniform(0.1, 0.5)) * mag, float(rng.uniform(0.6, 1)) * mag]
+            obj = Sphere(n=nval, r=rval, center=(float(rng.normal()) * mag, np.float64(rng.normal()), int(rng.integers(-5, 5))))
+            ctx.tried("numeric-precision", (kind, i))
+            back, texts = cycle(obj, 2, to_file=(i % 2 == 0))
+            same = np.array_equal(np.asarray(back.n, dtype=complex), np.asarray(obj.n, dtype=complex)) and \
+                np.array_equal(np.asarray(back.r, dtype=float), np.asarray(obj.r, dtype=float)) and \
+                np.array_equal(np.asarray(back.center, dtype=float), np.asarray(obj.center, dtype=float))
+            if not same:
+                ctx.violation("C15:numeric-precision:%s" % type(nval).__name__, "numeric arguments changed in a save/load cycle: n %r -> %r, r %r -> %r" % (obj.n, back.n, obj.r, back.r),
+                              dict(kind="numeric", n=repr(obj.n), r=repr(obj.r), center=repr(obj.center)))
+        except Exception as ex:
+            import traceback
+            ctx.violation("C15:raises:%s" % type(ex).__name__, "save/load of numeric payloads raised %r" % (ex,), dict(kind="raises", tb=traceback.format_exc()[-800:]))
     load_orders(ctx)
     ctx.sample(dict(kind="search", oracles=["equivalence after 1-3 cycles (file and stream)", "load orders across related classes in fresh interpreters", "identical re-saved text", "library equality for list/scalar args",
                                             "models: names, ties, maps", "probes of recorded findings"]))
